@@ -1,11 +1,29 @@
 import Rtcm.Model.Df
 import Rtcm.Gen.DfTable
+import Rtcm.Proofs.DfFloat
 /-!
 # C08  Every data field is lossless on its grid and has exactly one 'absent' pattern
-(under construction: table well-formedness instantiation; round-trip theorems follow)
+
+For every `df!` row `s` with `wf s` (a decidable Boolean predicate, instantiated on the whole
+generated table by `table_wf`) and every signed carrier reading `sv` that `Bits.parse` can return
+for a `len`-bit field of the row's kind (`InRange s sv`):
+
+* `df_value_roundtrip` : decoding `sv` and encoding the result reproduces the carrier value;
+* `df_decoded_finite`  : float fields decode to a finite datum which is not `-0`;
+* `df_absent_unique`, `df_decode_absent_iff`, `df_encode_absent`, `inv_inRange` : the decoder
+  answers "absent" for the reading `inv` and for no other, the encoder writes `inv` for "absent";
+* `df_decode_encode`   : the token-level round trip (`Df.decode` then `Df.encode`) puts
+  `Bits.ofInt w sv` again (to be composed with the bit-packer theorems of C07).
+
+The float argument (Rtcm/Proofs/DfLaws.lean, `deq_chain` / `enc_chain`): with `k = sv`,
+`r = fl(res)`, `b = fl(bias)`, `u = 2^-p`, `K = 2^len`: decode computes `x = fl(fl(k·r) + b)`,
+encode computes `q = fl(fl(x - b)/r)`; then `|q - k| ≤ E` with the explicit rational
+`E = D/r + u·(K·r + D)/r`, `D = u·(M3 + M2 + M1)`, `M1 = K·r`, `M2 = M1(1+u) + b`,
+`M3 = M2(1+u) + b`, and `E + u·(K+1) < 1/2` (checked per row in exact `Rat` arithmetic inside
+`wf`) forces `trunc(fl(q ± 1/2)) = k`.
 -/
 namespace Rtcm.C08
-open Rtcm.Schema Rtcm.Bits
+open Rtcm.Schema Rtcm.Bits Rtcm.Df Rtcm.SoftFloat Rtcm.DfWf Rtcm.DfLaws
 
 /-- structural well-formedness of a `df!` row -/
 def wfBasic (s : DfSpec) : Bool :=
@@ -13,5 +31,145 @@ def wfBasic (s : DfSpec) : Bool :=
   (s.it.w == 8 || s.it.w == 16 || s.it.w == 32 || s.it.w == 64)
 
 theorem table_wfBasic : Gen.dfTable.all wfBasic = true := by decide +kernel
+
+/-- full well-formedness of a `df!` row: `DfWf.wf` (Rtcm/Proofs/DfWf.lean) =
+`wfBasic s && wfInv s && (if s.dt.isFloat then wfFlt s else wfInt s)` -/
+abbrev wf (s : DfSpec) : Bool := DfWf.wf s
+
+/-- the signed carrier readings `Bits.parse` can return for the field -/
+abbrev InRange (s : DfSpec) (sv : Int) : Prop := DfWf.InRange s sv
+
+/-- `InRange` spelled out per kind -/
+theorem inRange_iff (s : DfSpec) (sv : Int) :
+    InRange s sv ↔
+      match s.it.kind with
+      | .u => 0 ≤ sv ∧ sv < 2 ^ s.len
+      | .i => -(2 ^ (s.len - 1)) ≤ sv ∧ sv < 2 ^ (s.len - 1)
+      | .sm => -(2 ^ (s.len - 1)) < sv ∧ sv < 2 ^ (s.len - 1) := by
+  unfold InRange DfWf.InRange svLo svHi
+  rcases s.it.kind <;> simp only <;> omega
+
+/-- (d) every row of the generated table is well-formed -/
+theorem table_wf : Gen.dfTable.all wf = true := by decide +kernel
+
+theorem wf_of_mem {s : DfSpec} (h : s ∈ Gen.dfTable) : wf s = true :=
+  List.all_eq_true.mp table_wf s h
+
+private theorem wf_parts {s : DfSpec} (hw : wf s = true) :
+    DfWf.wfBasic s = true ∧ wfInv s = true ∧
+      (if s.dt.isFloat then wfFlt s else wfInt s) = true := by
+  unfold wf DfWf.wf at hw
+  simp only [Bool.and_eq_true] at hw
+  exact ⟨hw.1.1, hw.1.2, hw.2⟩
+
+theorem wf_wfBasic {s : DfSpec} (hw : wf s = true) : wfBasic s = true := (wf_parts hw).1
+
+/-- (a) decoding a carrier reading and encoding the result reproduces the carrier value -/
+theorem df_value_roundtrip (cfg : Cfg) (s : DfSpec) (sv : Int) (hw : wf s = true)
+    (hr : InRange s sv) :
+    ∃ t, Df.dequantise cfg s sv = .ok t ∧ Df.quantise s t = .ok (Bits.ofInt s.it.w sv) := by
+  obtain ⟨hb, -, hk⟩ := wf_parts hw
+  by_cases hf : s.dt.isFloat = true
+  · rw [if_pos hf] at hk
+    obtain ⟨bits, h1, h2, -, -⟩ := flt_roundtrip cfg s sv hf hb hk hr
+    exact ⟨_, h1, h2⟩
+  · rw [if_neg hf] at hk
+    exact int_roundtrip cfg s sv (by simpa using hf) hk hr
+
+example : wf Gen.df_df011 = true ∧ InRange Gen.df_df011 16777214 :=
+  ⟨by decide +kernel, by decide +kernel, by decide +kernel⟩
+example : wf Gen.df_df025 = true ∧ InRange Gen.df_df025 (-137438953472) :=
+  ⟨by decide +kernel, by decide +kernel, by decide +kernel⟩
+example : wf Gen.df_df134 = true ∧ InRange Gen.df_df134 31 :=
+  ⟨by decide +kernel, by decide +kernel, by decide +kernel⟩
+
+/-- (b) float fields decode to a finite datum (no NaN, no infinity) which is never `-0` -/
+theorem df_decoded_finite (cfg : Cfg) (s : DfSpec) (sv : Int) (hw : wf s = true)
+    (hr : InRange s sv) (hf : s.dt.isFloat = true) :
+    ∃ b, Df.dequantise cfg s sv = .ok (.flt b) ∧
+      (SoftFloat.ofBits (fmtOf s.dt) b).isFinite = true ∧
+      (SoftFloat.ofBits (fmtOf s.dt) b).isNegZero = false := by
+  obtain ⟨hb, -, hk⟩ := wf_parts hw
+  rw [if_pos hf] at hk
+  obtain ⟨bits, h1, -, h3, h4⟩ := flt_roundtrip cfg s sv hf hb hk hr
+  exact ⟨bits, h1, h3, h4⟩
+
+example : wf Gen.df_df564 = true ∧ InRange Gen.df_df564 65535 ∧ Gen.df_df564.dt.isFloat = true :=
+  ⟨by decide +kernel, ⟨by decide +kernel, by decide +kernel⟩, by decide +kernel⟩
+
+/-- (c) `Df.decode`: the tokens are `[absent]` exactly for the reading `inv`, `[present, t]`
+otherwise (`[t]` for a field without `inv`), where `t` is the decoded value -/
+theorem df_absent_unique (cfg : Cfg) (s : DfSpec) (c : Cur) (p o : Nat) (hw : wf s = true)
+    (hp : Bits.parse cfg s.it c.data c.off s.len = .ok (p, o))
+    (hr : InRange s (carrierVal s.it p)) :
+    ∃ t, Df.dequantise cfg s (carrierVal s.it p) = .ok t ∧
+      Df.decode cfg s c = .ok
+        ((match s.inv with
+          | some inv => if carrierVal s.it p = inv then [Tok.absent] else [Tok.present, t]
+          | none => [t]), { c with off := o }) := by
+  obtain ⟨t, ht, -⟩ := df_value_roundtrip cfg s _ hw hr
+  exact ⟨t, ht, decode_tokens cfg s c p o t hp ht⟩
+
+/-- (c) "absent" is decoded iff the reading is the `inv` marker -/
+theorem df_decode_absent_iff (cfg : Cfg) (s : DfSpec) (c : Cur) (p o : Nat) (hw : wf s = true)
+    (hp : Bits.parse cfg s.it c.data c.off s.len = .ok (p, o))
+    (hr : InRange s (carrierVal s.it p)) :
+    ∃ toks, Df.decode cfg s c = .ok (toks, { c with off := o }) ∧
+      (toks = [Tok.absent] ↔ s.inv = some (carrierVal s.it p)) := by
+  obtain ⟨t, ht, hd⟩ := df_absent_unique cfg s c p o hw hp hr
+  refine ⟨_, hd, ?_⟩
+  rcases hi : s.inv with _ | inv
+  · have hne : t ≠ Tok.absent := by
+      obtain ⟨t', ht', hq⟩ := df_value_roundtrip cfg s _ hw hr
+      rw [ht] at ht'
+      cases ht'
+      rintro rfl
+      unfold Df.quantise at hq
+      split_ifs at hq
+    simp [hne]
+  · simp only
+    by_cases h : carrierVal s.it p = inv
+    · simp [h]
+    · simp only [h, if_false]
+      constructor
+      · intro h'; cases h'
+      · intro h'; cases h'; exact absurd rfl h
+
+/-- (c) the encoder writes the `inv` pattern for "absent" -/
+theorem df_encode_absent (cfg : Cfg) (s : DfSpec) (inv : Int) (rest : List Tok) (c : Cur)
+    (hinv : s.inv = some inv) :
+    Df.encode cfg s (.absent :: rest) c = putPat cfg s c (Bits.ofInt s.it.w inv) rest :=
+  encode_absent cfg s inv rest c hinv
+
+/-- (c) the `inv` marker is one of the readings of the field: exactly one absent pattern -/
+theorem inv_inRange (s : DfSpec) (inv : Int) (hw : wf s = true) (hinv : s.inv = some inv) :
+    InRange s inv := by
+  obtain ⟨-, hi, -⟩ := wf_parts hw
+  unfold wfInv at hi
+  rw [hinv] at hi
+  simp only [Bool.and_eq_true, decide_eq_true_eq] at hi
+  exact hi
+
+example : wf Gen.df_df011 = true ∧ Gen.df_df011.inv = some 16777215 :=
+  ⟨by decide +kernel, by decide +kernel⟩
+
+/-- token-level round trip: whatever `Df.decode` produced for the reading `sv`, `Df.encode` puts
+the pattern `Bits.ofInt w sv` -/
+theorem df_decode_encode (cfg : Cfg) (s : DfSpec) (c c' : Cur) (p o : Nat) (rest : List Tok)
+    (hw : wf s = true) (hp : Bits.parse cfg s.it c.data c.off s.len = .ok (p, o))
+    (hr : InRange s (carrierVal s.it p)) :
+    ∃ toks, Df.decode cfg s c = .ok (toks, { c with off := o }) ∧
+      Df.encode cfg s (toks ++ rest) c' =
+        putPat cfg s c' (Bits.ofInt s.it.w (carrierVal s.it p)) rest := by
+  obtain ⟨t, ht, hq⟩ := df_value_roundtrip cfg s _ hw hr
+  refine ⟨_, decode_tokens cfg s c p o t hp ht, ?_⟩
+  rcases hi : s.inv with _ | inv
+  · exact encode_ord cfg s t rest c' _ hi hq
+  · simp only
+    by_cases h : carrierVal s.it p = inv
+    · simp only [h, if_true]
+      exact encode_absent cfg s inv rest c' hi
+    · simp only [h, if_false]
+      exact encode_present cfg s inv t rest c' _ hi hq
 
 end Rtcm.C08
